@@ -402,12 +402,17 @@ def _r29d(chk, repo) -> None:
             continue
         own, foreign = set(), set()
         for st in m.tree.body:
+            tgt = None  # `x = f(..)` and the annotated spelling `x: T = f(..)`
             if isinstance(st, ast.Assign) and len(st.targets) == 1 and isinstance(st.targets[0], ast.Name) and isinstance(st.value, ast.Call):
+                tgt = st.targets[0].id
+            elif isinstance(st, ast.AnnAssign) and isinstance(st.target, ast.Name) and isinstance(st.value, ast.Call):
+                tgt = st.target.id
+            if tgt is not None:
                 fn = call_name(st.value)
                 if fn.endswith(".copy_as") or fn.split(".")[-1] == "Dialect":
-                    own.add(st.targets[0].id)
+                    own.add(tgt)
                 elif fn.split(".")[-1] == "load_raw_dialect":
-                    foreign.add(st.targets[0].id)
+                    foreign.add(tgt)
         if not own:
             continue
         n_mod += 1
@@ -639,6 +644,61 @@ VARIANTS = [
         "            \"REMOVE\",\n            \"FILE\",\n            Ref(\"NakedOrQuotedIdentifierGrammar\"),\n",
         "            \"REMOVE\",\n            \"FILE\",\n            OneOf(Ref(\"NakedOrQuotedIdentifierGrammar\"), Ref(\"QuotedLiteralSegment\")),\n",
         "QUIET", None, "a grammar change that keeps every reference resolvable and matchable",
+    ),
+    # behaviour-preserving refactors: must stay quiet
+    Variant(
+        "quiet-ansi-element-wrapped-in-one-element-sequence", ANSI,
+        '        "TRUNCATE",\n        Ref.keyword("TABLE", optional=True),\n        Ref("TableReferenceSegment"),\n',
+        '        "TRUNCATE",\n        Ref.keyword("TABLE", optional=True),\n        Sequence(Ref("TableReferenceSegment")),\n',
+        "QUIET", None, "an element wrapped in a one-element Sequence",
+    ),
+    Variant(
+        "quiet-ansi-element-wrapped-in-one-element-oneof", ANSI,
+        '        Delimited(Ref("TableReferenceSegment")),\n        Ref("DropBehaviorGrammar", optional=True),\n    )\n\n\nclass DropViewStatementSegment',
+        '        Delimited(OneOf(Ref("TableReferenceSegment"))),\n        Ref("DropBehaviorGrammar", optional=True),\n    )\n\n\nclass DropViewStatementSegment',
+        "QUIET", None, "an element wrapped in a one-element OneOf",
+    ),
+    Variant(
+        "quiet-ansi-keyword-list-entries-swapped", ANSI_KW,
+        "\nWAREHOUSE\nWAREHOUSES\n",
+        "\nWAREHOUSES\nWAREHOUSE\n",
+        "QUIET", None, "two entries of a keyword list swapped",
+    ),
+    Variant(
+        "quiet-ansi-unreferenced-segment-added", ANSI,
+        "class DropIndexStatementSegment(BaseSegment):\n",
+        "class SpareDemoStatementSegment(BaseSegment):\n    \"\"\"A segment nothing refers to.\"\"\"\n\n    type = \"spare_demo_statement\"\n    match_grammar: Matchable = Sequence(\"DROP\", Ref(\"SingleIdentifierGrammar\"))\n\n\nclass DropIndexStatementSegment(BaseSegment):\n",
+        "QUIET", None, "a harmless segment class that nothing references",
+    ),
+    Variant(
+        "quiet-ansi-keyword-string-as-ref-keyword", ANSI,
+        '        "TRUNCATE",\n        Ref.keyword("TABLE", optional=True),\n        Ref("TableReferenceSegment"),\n',
+        '        Ref.keyword("TRUNCATE"),\n        Ref.keyword("TABLE", optional=True),\n        Ref("TableReferenceSegment"),\n',
+        "QUIET", None, "a bare keyword string spelled Ref.keyword(..)",
+    ),
+    Variant(
+        "quiet-ansi-bracketed-explicit-default-type", ANSI,
+        '    match_grammar = Sequence(\n        Bracketed(\n            Ref(\n                "FunctionContentsGrammar",\n                # The brackets might be empty for some functions...\n                optional=True,\n            ),\n        ),\n',
+        '    match_grammar = Sequence(\n        Bracketed(\n            Ref(\n                "FunctionContentsGrammar",\n                # The brackets might be empty for some functions...\n                optional=True,\n            ),\n            bracket_type="round",\n        ),\n',
+        "QUIET", None, "the default bracket type written out",
+    ),
+    Variant(
+        "quiet-dialect-lookup-entries-reordered", DIALECTS_INIT,
+        '    "ansi": ("dialect_ansi", "ansi_dialect"),\n    "athena": ("dialect_athena", "athena_dialect"),\n',
+        '    "athena": ("dialect_athena", "athena_dialect"),\n    "ansi": ("dialect_ansi", "ansi_dialect"),\n',
+        "QUIET", None, "two entries of the lookup table swapped",
+    ),
+    Variant(
+        "quiet-teradata-dialect-objects-annotated", "src/sqlfluff/dialects/dialect_teradata.py",
+        'ansi_dialect = load_raw_dialect("ansi")\nteradata_dialect = ansi_dialect.copy_as(\n',
+        'ansi_dialect: "Dialect" = load_raw_dialect("ansi")\nteradata_dialect: "Dialect" = ansi_dialect.copy_as(\n',
+        "QUIET", None, "module-level dialect objects given an annotation",
+    ),
+    Variant(
+        "teradata-annotated-and-edits-the-shared-ansi-dialect", "src/sqlfluff/dialects/dialect_teradata.py",
+        'ansi_dialect = load_raw_dialect("ansi")\nteradata_dialect = ansi_dialect.copy_as(\n',
+        'ansi_dialect: "Dialect" = load_raw_dialect("ansi")\nansi_dialect.sets("unreserved_keywords").discard("SETS")\nteradata_dialect: "Dialect" = ansi_dialect.copy_as(\n',
+        "R29d", "dialect_teradata.py", "breaking twin of the annotated spelling",
     ),
     Variant(
         "ansi-unreserved-keyword-deleted", ANSI_KW,
